@@ -44,7 +44,7 @@ def mkcfg(spec):
     return sim.make_config(mode=spec["mode"], spectrum=spec["spectrum"], cloud=spec["cloud"], optical=spec["optical"], radio=spec["radio"], altitude=spec["alt"], n=spec["n"], logE=spec.get("logE"), extra=spec.get("extra"))
 
 
-def run_once(spec, seed, scheduler="synchronous", workers=2, chooser=None, real=False):
+def run_once(spec, seed, scheduler="synchronous", workers=2, chooser=None, real=False, **compute_kw):
     import dask
 
     import nuspacesim
@@ -58,7 +58,7 @@ def run_once(spec, seed, scheduler="synchronous", workers=2, chooser=None, real=
                 pb = own.null_progress() if not real else _nullctx()
                 with pb, ctxm:
                     np.random.seed(seed)
-                    return nuspacesim.compute(cfg)
+                    return nuspacesim.compute(cfg, **compute_kw)
             with own.null_progress(), schedule.controlled_dask(scheduler, workers, chooser, 1):
                 np.random.seed(seed)
                 return nuspacesim.compute(cfg)
@@ -211,6 +211,14 @@ def job(a):
     # repeat: same seed, same scheduler
     if sim.table_digest(run_once(spec, seed)) != base:
         out.append(("reproducible_same_scheduler", base, "differs", None))
+    info["execs"] += 1
+    # the same run asked to report its progress (verbose=True): the same table, also when no trajectory survives
+    try:
+        tv = run_once(spec, seed, verbose=True)
+        if not isinstance(tv, Table) or sim.table_digest(tv) != base:
+            out.append(("verbose_run_returns_the_same_table", base, "differs", None))
+    except BaseException as ex:
+        out.append(("verbose_run_returns_the_same_table", f"a table of {len(t)} rows", f"{type(ex).__name__}: {str(ex)[:100]}", None))
     info["execs"] += 1
     # the table writes to FITS (also when empty)
     tmp = tempfile.mkdtemp(prefix="nssmc_c14_")
